@@ -143,13 +143,20 @@ def swizzle_probes():
     return out
 
 
-# Two classes of accepted programs that DO go wrong; both are recorded as known findings (see known_findings.json) and are
+# Three classes of accepted programs that DO go wrong; all are recorded as known findings (see known_findings.json) and are
 # identified by these probe families, so that any other internal failure is still reported.
 SHAPE_MISMATCH = [   # a value of another SHAPE than the declared type is assigned / returned (the front end never compares them), then used
     ("export function f(int a, int4 b) -> int { int t = a; t = a * b; return t + 1; }", dict(a="int", b="int4")),
     ("function g(float3 v) -> float { return v; }\nexport function f(float3 v) -> float { return g(v) * 2.0; }", dict(v="float3")),
     ("export function f(float2 a, float b) -> float2 { a.xy = b; return a; }", dict(a="float2", b="float")),
     ("export function f(float4x4 m, float4 v) -> float { float4 w = m; return w.x + 1.0; }", dict(m="float4x4", v="float4")),
+]
+MISSING_RETURN = [   # a non-void function that can end without returning a value (or a void result that is used): the value is None
+    ("function g(int a) -> int { if (a > 0) { return 1; } }\nexport function f(int x) -> int { return g(x - 100) + 1; }", dict(x="int")),
+    ("function g(int a) -> int { }\nexport function f(int x) -> int { return g(x) + 1; }", dict(x="int")),
+    ("function g(int a) -> int { return; }\nexport function f(int x) -> int { return g(x) * 2; }", dict(x="int")),
+    ("function g(int a) -> void { return; }\nexport function f(int x) -> int { int r = g(x); return r + 1; }", dict(x="int")),
+    ("function g(float a) -> float { while (a > 1000.0) { return a; } }\nexport function f(float x) -> float { return g(x) + 1.0; }", dict(x="float")),
 ]
 NONFINITE_CAST = [   # float -> int conversion of an infinity or a NaN (math.floor raises)
     ("export function f(float a) -> int { int i = a; return i; }", dict(a="float")),
@@ -224,7 +231,7 @@ def run_probe(run, src, ptys, origin, inputs=None):
             if r[0] == "internal":
                 if typed and origin != "nonfinite-cast" and r[1] != "OverflowError@CAST":
                     run.mismatch("theorem-instance:C05_typed_ir", dict(inp, args=args), "irTypeCheck accepts the IR", "the real VM fails internally: %s" % (r[1],))
-                fam = origin if origin in ("shape-mismatch", "nonfinite-cast") else "internal:run"
+                fam = origin if origin in ("shape-mismatch", "nonfinite-cast", "missing-return") else "internal:run"
                 run.fail("run-time", dict(inp, args={k: repr(v) for k, v in args.items()}, site=r[1]), "optimize=%s f(%s) fails with %s\n%s" % (opt, args, r[1], src[:300]), key=fam + ":" + r[1])
                 break
 
@@ -269,6 +276,8 @@ def explore(run, scale=1):
         run_probe(run, src, ptys, "conv")
     for src, ptys in SHAPE_MISMATCH:
         run_probe(run, src, ptys, "shape-mismatch")
+    for src, ptys in MISSING_RETURN:
+        run_probe(run, src, ptys, "missing-return")
     inf, nan = float("inf"), float("nan")
     for src, ptys in NONFINITE_CAST:
         vals = [inf, -inf, nan, 1e308]
